@@ -11,6 +11,9 @@
 (*            "x:known": the prefix must be bound where the value is written)   *)
 (*            (x:known has a global declaration, x:unk has none; an item that   *)
 (*            has a note also carries one x:known)                              *)
+(*            @uc: union(int, date) restricted by a pattern ? (items that have a   *)
+(*            sub), @up: the plain union(int, date) ? (items that carry a flag; its *)
+(*            value does not match the pattern of uc)                              *)
 (*   sub   := qty:decimal+            (same local name, other declaration)      *)
 (* A document is a flat list of nodes [path, name, decl, attrs, text] in        *)
 (* document order; path = child indexes from the root; decl names the           *)
@@ -25,7 +28,8 @@ EXTENDS XsdBase, TLC, Json
 ItemCfg == [flag : BOOLEAN, note : BOOLEAN, sub : 0..2]
 ItemDevs == {"none", "badqty", "missingtitle", "missingqty", "extrachild", "extrafirst", "swap",
              "badid", "missingid", "bogusattr", "bogusontitle", "badflag",
-             "badsubqty", "emptysub", "extrainsub", "textinitem", "unknownext", "badmemo"}
+             "badsubqty", "emptysub", "extrainsub", "textinitem", "unknownext", "badmemo",
+             "baduc"}         \* a value of @uc that NO member type of the union can read
 RootDevs == {"none", "extrainroot", "extrafirstinroot", "noitems", "bogusonroot"}
 
 Node(p, name, decl, attrs, text) == [path |-> p, name |-> name, decl |-> decl, attrs |-> attrs, text |-> text]
@@ -57,6 +61,8 @@ ItemAttrs(c, d) ==
   \cup (IF c.flag \/ d = "badflag" THEN {<<"flag", IF d = "badflag" THEN "bad" ELSE "ok">>} ELSE {})
   \cup (IF d = "bogusattr" THEN {<<"bogus", "ok">>} ELSE {})
   \cup (IF c.note THEN {<<"ref", "ok">>} ELSE {})
+  \cup (IF c.sub > 0 THEN {<<"uc", IF d = "baduc" THEN "bad" ELSE "ok">>} ELSE {})
+  \cup (IF c.flag THEN {<<"up", "ok">>} ELSE {})
 
 RECURSIVE SubNodes(_, _, _)
 SubNodes(p, ks, i) == IF i > Len(ks) THEN <<>>
@@ -75,7 +81,7 @@ ItemNodes(p, c, d) ==
   \o KidNodes(p, ItemKids(c, d), 1, c, d)
 
 (* applicability: a deviation needs the thing it damages *)
-Applicable(c, d) == CASE d \in {"badsubqty", "emptysub", "extrainsub"} -> c.sub > 0
+Applicable(c, d) == CASE d \in {"badsubqty", "emptysub", "extrainsub", "baduc"} -> c.sub > 0
                       [] d = "badmemo" -> c.flag
                       [] d = "badflag" -> TRUE
                       [] OTHER -> TRUE
